@@ -30,6 +30,10 @@ def base_cfgs(tier, fixed):
             cs.append(F.line3(c1, c2, order=order))
         cs.append(F.join3(c1, c2))
         cs.append(F.fan3(c1, c2, order=("C", "A", "B")))
+    # a user-style adapter that keeps its last result in an attribute named `data`, between other adapters
+    for ch in ([["K"]], [F.TOK["S"], ["K"], F.TOK["S"]], [F.TOK["L"], ["K"]], [["K"], F.TOK["F1"]]):
+        cs.append(F.pair(ch))
+        cs.append(F.pair(ch, order=("B", "A")))
     # components with their own clock (implement ITimeComponent directly instead of deriving from the sdk's TimeComponent)
     for who in ((1,), (0,), (0, 1)):
         for ch in ([], [F.TOK["L"]], [F.TOK["F1"]]):
